@@ -44,16 +44,18 @@ def Obj.kappa (T : Tables) (o : Obj) : Obj × Rat :=
 
 def isSTY (a : AA) : Bool := a = AA.S ∨ a = AA.T ∨ a = AA.Y
 
-/-- one requested 1-based site -/
+def residueIsSTY (s : Seq) (i : Nat) : Bool :=
+  match s[i]? with
+  | some a => isSTY a
+  | none => false
+
+/-- append unless already listed -/
+def Obj.addSite (o : Obj) (i : Nat) : Obj := if i ∈ o.phos then o else { o with phos := o.phos ++ [i] }
+
+/-- one requested 1-based site: skipped when outside the sequence or not S/T/Y -/
 def Obj.setSite (o : Obj) (site : Int) : Obj :=
-  let idx := site - 1
-  if idx < 0 ∨ (o.seq.length : Int) ≤ idx then o
-  else
-    let i := idx.toNat
-    match o.seq[i]? with
-    | none => o
-    | some a =>
-      if isSTY a then (if i ∈ o.phos then o else { o with phos := o.phos ++ [i] }) else o
+  if site - 1 < 0 ∨ (o.seq.length : Int) ≤ site - 1 then o
+  else if residueIsSTY o.seq (site - 1).toNat = true then o.addSite (site - 1).toNat else o
 
 /-- `setPhosPhoSites(list)` -/
 def Obj.setPhos (o : Obj) (sites : List Int) : Obj := sites.foldl Obj.setSite o
